@@ -53,6 +53,9 @@ func payloadFaults(g *Gen) []payloadFault {
 		{"tags-2", mustAny(&errorspb.TagsPayload{Tags: []errorspb.TagPayload{{Tag: "k", Value: "v"}, {Tag: "k", Value: "w"}}}), true},
 		{"mark-empty", mustAny(&errorspb.MarkPayload{}), true},
 		{"mark", mustAny(&errorspb.MarkPayload{Msg: "m", Types: []errorspb.ErrorTypeMark{{FamilyName: "f", Extension: "x"}}}), true},
+		{"mark-msg-only", mustAny(&errorspb.MarkPayload{Msg: "m"}), true},
+		{"mark-types-only", mustAny(&errorspb.MarkPayload{Types: []errorspb.ErrorTypeMark{{FamilyName: "f"}}}), true},
+		{"mark-empty-type", mustAny(&errorspb.MarkPayload{Msg: "m", Types: []errorspb.ErrorTypeMark{{}}}), true},
 		{"errno-empty", mustAny(&errorspb.ErrnoPayload{}), true},
 		{"errno-here", mustAny(&errorspb.ErrnoPayload{OrigErrno: 13, Arch: "linux:amd64", IsPermission: true}), true},
 		{"errno-elsewhere", mustAny(&errorspb.ErrnoPayload{OrigErrno: 13, Arch: "plan9:mips", IsPermission: true, IsTimeout: true}), true},
@@ -71,7 +74,9 @@ func payloadFaults(g *Gen) []payloadFault {
 	return out
 }
 
-var detailFaults = [][]string{nil, {"one"}, {"one", "two"}, {"one", "two", "three"}, {"\nmain.f\n\t/a/b.go:12", "x"}, {"main.f"}}
+var detailFaults = [][]string{nil, {"one"}, {"one", "two"}, {"one", "two", "three"}, {"\nmain.f\n\t/a/b.go:12", "x"}, {"main.f"},
+	// present but empty / blank first strings (a printed stack, a link, a domain that is the empty string)
+	{""}, {" \n\t\n"}, {"", ""}, {"\n"}}
 
 // faultCase builds one message with the given key at the given position
 func faultCase(key string, kind string, pf payloadFault, rep []string, mt int, pos int, msg string) *errorspb.EncodedError {
